@@ -93,6 +93,13 @@ def run(ctx):
                         ok = True
                         ctx.fn(it)
         ctx.ob("M-FOLD-DOORS", "%s via try_from_floats" % who.lower(), ok, "no call of %s::try_from_floats in a fold impl" % who)
+    # ---- cross-listed structural conditions (each is a necessary condition of this property as well; round-2 seeds showed changes
+    # to them being caught only by the check of a neighbouring property)
+    import c09, c10
+    c10.rule_I_INDEX(ctx, ev, ctors)          # image placeholder position and component order (enum parser, fold)
+    c10.rule_N_INTERVAL(ctx, maps.FoldMaps(ctx, ev))   # interval value, placeholder ignores what follows its prefix
+    maps.rule_U_CHARS(ctx)                    # borders are char counts
+    c09.rule_W_ENUM(ctx)                      # the spaces the formatter writes are skipped at every token boundary
     # the two pipelines must recognise copulas/brackets by full matches: the enum look-ahead once accepted a truncated copula at the end of input where the lexical matcher did not (D9)
     import fullmatch
     fullmatch.rule_P_FULLMATCH(ctx)
